@@ -47,6 +47,16 @@ func main() {
 	r.Cases("slist/pair", r.N(8000, 300000), opt, slistPair)
 	r.Cases("dlist/big", r.N(96, 1000), opt, dlistBig)
 	r.Cases("slist/big", r.N(96, 1000), opt, slistBig)
+	// LESSONS class 14: element types other than int (typed.go)
+	r.Cases("elemtypes", r.N(40000, 1000000), opt, typedCase)
+	for _, t := range []string{"struct{128 bytes}", "[32]int64", "struct{1024 bytes}", "string", "any", "*int", "struct{}", "[2]string"} {
+		r.Require("typed/slist "+t, 1000)
+		r.Require("typed/dlist "+t, 500)
+	}
+	r.Require("typed/slist_swap_neighbours", 20000)
+	r.Require("typed/slist_swap_in_range", 40000)
+	r.Require("typed/slist_node_reinserted", 5000)
+	r.Require("typed/dlist_moves", 20000)
 	// anti-vacuity floors (a fraction of what the quick tier observes at every seed)
 	for k, v := range map[string]int64{
 		"dlist_ops": 500000, "dlist_traversals_compared": 3000000,
